@@ -197,3 +197,39 @@ Proof.
   exact (cubic_flow_carries_the_base_mass minw minh eps thr B uw uh ul ur HB HK Hlh Hw0 HwK Hh0 HhK A HA).
 Qed.
 Print Assumptions C03_cubic_spline_flow_carries_the_base_mass.
+
+(* ---- two features: Flow(PiecewiseRationalQuadraticCDF([2], tails='linear'), StandardNormal([2])) - one spline per feature, each
+   with its own parameters; log_prob of a row from the generated D-dimensional energy term, log-normaliser and flow_log_prob with
+   the two log-abs-dets summed.  Its density integrates over the square [-A, A]^2 (iterated integral) to the square of the standard
+   normal mass of [-A, A]; likewise with a linear spline on one feature and a cubic one on the other ---- *)
+From NF Require Import Proofs.FlowProduct.
+Theorem C03_two_feature_rq_spline_flow_carries_the_product_mass :
+  forall (c : @rq_cfg R) (B : R) (uw1 uh1 ud1 uw2 uh2 ud2 : list R), 0 < B ->
+  rq_wellformed c {| b_left := - B; b_right := B; b_bottom := - B; b_top := B |} uw1 uh1
+                (rq_tail_constant Rops (min_derivative c) :: ud1 ++ (rq_tail_constant Rops (min_derivative c) :: nil)) ->
+  rq_wellformed c {| b_left := - B; b_right := B; b_bottom := - B; b_top := B |} uw2 uh2
+                (rq_tail_constant Rops (min_derivative c) :: ud2 ++ (rq_tail_constant Rops (min_derivative c) :: nil)) ->
+  forall A, B <= A ->
+  is_RInt (fun x => RInt (fun y => exp (log_prob2 (U c B uw1 uh1 ud1) (Ulad c B uw1 uh1 ud1) (U c B uw2 uh2 ud2) (Ulad c B uw2 uh2 ud2) x y)) (- A) A)
+          (- A) A (RInt (fun y => exp (sn_lp1 y)) (- A) A * RInt (fun y => exp (sn_lp1 y)) (- A) A).
+Proof.
+  intros c B uw1 uh1 ud1 uw2 uh2 ud2 HB W1 W2 A HA.
+  apply two_feature_flow_carries_the_product_mass.
+  - exact (spline_flow_carries_the_base_mass c B uw1 uh1 ud1 HB W1 A HA).
+  - exact (spline_flow_carries_the_base_mass c B uw2 uh2 ud2 HB W2 A HA).
+Qed.
+Print Assumptions C03_two_feature_rq_spline_flow_carries_the_product_mass.
+
+Theorem C03_two_feature_linear_and_cubic_spline_flow_carries_the_product_mass :
+  forall (B : R) (u : list R) (minw minh eps thr : R) (uw uh : list R) (ul ur : R), 0 < B -> u <> nil ->
+  uw <> nil -> length uh = length uw -> 0 <= minw -> minw * INR (length uw) <= 1 -> 0 <= minh -> minh * INR (length uw) <= 1 ->
+  forall A, B <= A ->
+  is_RInt (fun x => RInt (fun y => exp (log_prob2 (UL B u) (ULlad B u) (UC minw minh eps thr B uw uh ul ur) (UClad minw minh eps thr B uw uh ul ur) x y)) (- A) A)
+          (- A) A (RInt (fun y => exp (sn_lp1 y)) (- A) A * RInt (fun y => exp (sn_lp1 y)) (- A) A).
+Proof.
+  intros B u minw minh eps thr uw uh ul ur HB Hne HK Hlh Hw0 HwK Hh0 HhK A HA.
+  apply two_feature_flow_carries_the_product_mass.
+  - exact (linear_flow_carries_the_base_mass B u HB Hne A HA).
+  - exact (cubic_flow_carries_the_base_mass minw minh eps thr B uw uh ul ur HB HK Hlh Hw0 HwK Hh0 HhK A HA).
+Qed.
+Print Assumptions C03_two_feature_linear_and_cubic_spline_flow_carries_the_product_mass.
